@@ -12,7 +12,9 @@ RULE = ('one run = a seeded universe (bases, several versions per id, extensions
         'extensions, requires, ILI files) + a seeded fault-free history of 6-14 add/remove/'
         'add-ILI/restart/checkpoint ops with random routes, BATCH_SIZE and read chunking; after '
         '(in 30% of the runs removed lexicons are RE-RELEASED: other content under the same '
-        'id:version, re-added later - usually at the rowid the old release had); '
+        'id:version, re-added later - usually at the rowid the old release had; in 15% of the '
+        'runs that have an extension of b:v1 and a release b:v2, one extra file ships '
+        '[extension, b:v2] together and is added while b:v1 is installed); '
         'every op: installed set, full model image per extension family, dependency links, '
         'foreign_key_check/integrity_check; at checkpoints and at the end: rowid-free logical dump '
         'equal to a database built fresh from the installed set. distinct = distinct event '
@@ -41,7 +43,44 @@ def build(seed):
              'short_reads': prng.random() < 0.5, 'external': prng.random() < 0.08,
              'rerelease': rerelease}
     plan = P.history(prng, u, prng.randint(6, 14), swarm)
+    pack = pack_extension_with_next_release(u, subseed(seed, 'pack'))
+    if pack:
+        plan = pack + plan
     return u, plan
+
+
+def pack_extension_with_next_release(u, rng):
+    """An extension shipped in ONE file together with the next release of its base (which keeps
+    the base's identifiers): [extension of b:v1, b:v2]. Added while b:v1 is installed, the
+    extension is really added in that call and the lexicon after it has local ids equal to the
+    extension's External* ids. Returns the ops to run first (or None)."""
+    if rng.random() >= 0.15:
+        return None
+    docs = u['lexicons']
+    res_of = {sp: r for r in u['resources'] for sp in r['lexicons']}
+    cands = []
+    for x, d in docs.items():
+        if not d.get('extends'):
+            continue
+        b = '%s:%s' % (d['extends']['id'], d['extends']['version'])
+        if b not in docs or docs[b].get('extends'):
+            continue
+        for b2, d2 in docs.items():
+            if b2 != b and d2['id'] == docs[b]['id'] and not d2.get('extends'):
+                cands.append((x, b, b2))
+    if not cands:
+        return None
+    x, b, b2 = rng.choice(cands)
+    v = max(res_of[x]['lmf_version'], res_of[b2]['lmf_version'], '1.1')
+    if res_of[x]['lmf_version'] != v or res_of[b2]['lmf_version'] != v:
+        return None          # documents are only ever written under the version they were drawn for
+    name = 'rpack'
+    u['resources'].append({'name': name, 'lmf_version': v, 'lexicons': [x, b2]})
+    ops = [{'op': 'add', 'res': res_of[b]['name']}, {'op': 'add', 'res': name}]
+    if rng.random() < 0.5:
+        ops.append({'op': 'remove', 'spec': b})
+    ops.append({'op': 'checkpoint'})
+    return ops
 
 
 def run_one(seed, tier):
